@@ -166,9 +166,9 @@ func genSpec(t *rapid.T, kind string) iters.Spec {
 	s := iters.Spec{Kind: kind}
 	switch kind {
 	case "treeset", "treemap", "redblacktree", "avltree", "btree", "priorityqueue", "binaryheap":
-		s.Cmp = dom.TotalCmps[rapid.IntRange(0, 2).Draw(t, "cmp")]
+		s.Cmp = dom.TotalCmps[rapid.IntRange(0, len(dom.TotalCmps)-1).Draw(t, "cmp")]
 	case "treebidimap":
-		s.Cmp = dom.TotalCmps[rapid.IntRange(0, 2).Draw(t, "cmp")]
+		s.Cmp = dom.TotalCmps[rapid.IntRange(0, len(dom.TotalCmps)-1).Draw(t, "cmp")]
 	}
 	if kind == "btree" {
 		s.Order = []int{3, 4, 5, 7}[rapid.IntRange(0, 3).Draw(t, "order")]
